@@ -340,9 +340,14 @@ Verdict_call(ev) ==
 \* Every concurrent outcome must equal the outcome of the same call run alone (which is itself judged as
 \* an ordinary "a" event); shared operands, Contexts and the package state must be unchanged afterwards;
 \* a race-detector report is an event no action admits.
-SameAOut(a, b) == a.panic = b.panic /\ SameRepr(a.res, b.res) /\ a.res.cs = b.res.cs /\ a.fl = b.fl /\ a.err = b.err /\ a.cnt = b.cnt
+\* the destination is compared when the call delivered one: no error, or a trapped condition of a non-composite
+\* operation (a composite function that fails, or any call refused with a system error, leaves it unspecified - C03 -
+\* and every caller keeps re-using one private destination)
+SameAOut(a, b, ev) ==
+  /\ a.panic = b.panic /\ a.fl = b.fl /\ a.err = b.err /\ a.cnt = b.cnt
+  /\ ((a.err = "" \/ (ev.op \notin Composite /\ And(a.fl, ev.ctx.t) # 0)) => (SameRepr(a.res, b.res) /\ a.res.cs = b.res.cs))
 Verdict_conc(ev) ==
-  Names(<< <<"same-as-alone", \A i \in 1..Len(ev.conc) : SameAOut(ev.conc[i], ev.seq)>>,
+  Names(<< <<"same-as-alone", \A i \in 1..Len(ev.conc) : SameAOut(ev.conc[i], ev.seq, ev)>>,
            <<"readonly-same", \A i \in 1..Len(ev.roc) : ev.roc[i] = ev.ro>>,
            <<"ctx-unchanged", \A i \in 1..Len(ev.conc) : ev.conc[i].ctxa = ev.ctx>> >>)
 Verdict_concsnap(ev) ==
